@@ -67,6 +67,14 @@ func runC19(ctx *Ctx) {
 	if ctx.Want(n + 10) {
 		defer c19WS(ctx, n+10)
 	}
+	if ctx.Want(n + 11) {
+		defer c19NoAddress(ctx, n+11)
+	}
+	for c := 0; c < ctx.N(6, 60); c++ {
+		if ctx.Want(n + 500 + c) {
+			e2eCase(ctx, n+500+c, ctx.Sub(n+500+c), "c19-")
+		}
+	}
 	nodeID := nodeIDOf("h1")
 	sources := []string{"1.2.3.4:5555", "[::1]:5555", "[2001:db8::2]:80", "host.example:99", "", "[fe80::9%25lo0]:7"}
 	// one shared world for the public path
